@@ -21,6 +21,12 @@ def run(m):
             if r.returncode != 0:
                 return "STALE (cannot revert %s: %s)" % (m["revert"], r.stdout[-200:])
             return _run_checks(m, tmp)
+        if m.get("patch"):
+            r = subprocess.run(["patch", "-p1", "-s", "-d", tmp, "-i", os.path.join(VERIF, m["patch"])], stdout=subprocess.PIPE,
+                               stderr=subprocess.STDOUT, universal_newlines=True)
+            if r.returncode != 0:
+                return "STALE (patch does not apply: %s)" % r.stdout[-200:]
+            return _run_checks(m, tmp)
         p = os.path.join(tmp, m["file"])
         s = open(p).read()
         if m.get("nth"):
